@@ -29,6 +29,9 @@ import (
 	"github.com/ipld/go-ipld-prime/datamodel"
 	peer "github.com/libp2p/go-libp2p/core/peer"
 
+	versioning "github.com/filecoin-project/go-ds-versioning/pkg"
+	"github.com/filecoin-project/go-ds-versioning/pkg/versioned"
+
 	datatransfer "github.com/filecoin-project/go-data-transfer/v2"
 	"github.com/filecoin-project/go-data-transfer/v2/channels/internal"
 	zz "github.com/filecoin-project/go-data-transfer/v2/zzverif"
@@ -139,11 +142,14 @@ func verifCopyV2(o *ChannelStateV2) ChannelStateV2 {
 }
 
 // VerifC13_Migrate2To3: one arbitrary stored record through the 2 -> 3 migration.
-func VerifC13_Migrate2To3() {
+func VerifC13_Migrate2To3() { verifCheckMigration(MigrateChannelState2To3) }
+
+// verifCheckMigration checks a 2->3 migration function on an arbitrary version-2 record.
+func verifCheckMigration(migrate func(*ChannelStateV2) (*internal.ChannelState, error)) {
 	old := verifArbitraryV2("old")
 	src := verifCopyV2(old) // the stored value, to detect a migration that edits its input
 
-	got, err := MigrateChannelState2To3(old)
+	got, err := migrate(old)
 	zz.Assert(err == nil, "migration of a stored record never fails")
 	zz.Assert(got != nil, "migration yields a record")
 
@@ -265,4 +271,60 @@ func VerifC13_NoOp0To2() {
 	} else {
 		zz.Reach("nil passed through")
 	}
+}
+
+//verif:stub github.com/filecoin-project/go-ds-versioning/pkg/versioned.NewVersionedBuilder verifNewVersionedBuilder
+//verif:native-rewrite-all channels/internal/migrations/migrations.go versioned.NewVersionedBuilder( => verifVBSeam(versioned.NewVersionedBuilder)(
+
+// verifBuilder records what GetChannelStateMigrations registers (go-ds-versioning's builder wraps
+// the function in reflection; the contract used here: Build() keeps (function, old, new) as given).
+type verifBuilder struct {
+	up       versioning.MigrationFunc
+	newV     versioning.VersionKey
+	oldV     versioning.VersionKey
+	filtered bool
+}
+
+var verifRegistered []*verifBuilder
+
+func verifNewVersionedBuilder(up versioning.MigrationFunc, newVersion versioning.VersionKey) versioned.Builder {
+	b := &verifBuilder{up: up, newV: newVersion}
+	verifRegistered = append(verifRegistered, b)
+	return b
+}
+
+func verifVBSeam(real func(versioning.MigrationFunc, versioning.VersionKey) versioned.Builder) func(versioning.MigrationFunc, versioning.VersionKey) versioned.Builder {
+	return verifNewVersionedBuilder
+}
+
+func (b *verifBuilder) Reversible(down versioning.MigrationFunc) versioned.Builder { return b }
+func (b *verifBuilder) FilterKeys(k []string) versioned.Builder                    { b.filtered = true; return b }
+func (b *verifBuilder) Only(k []string) versioned.Builder                          { b.filtered = true; return b }
+func (b *verifBuilder) OldVersion(o versioning.VersionKey) versioned.Builder       { b.oldV = o; return b }
+func (b *verifBuilder) Build() (versioning.VersionedMigration, error)              { return nil, nil }
+
+// VerifC13_RegisteredMigration: the migration list that channels.New hands to the versioned store
+// (GetChannelStateMigrations, for an arbitrary local peer ID) registers, for the step to schema
+// version "3" from "2", a function that preserves every field of every version-2 record exactly
+// like MigrateChannelState2To3 (in particular it does not depend on the local peer), applies to
+// every record (no key filter), and the initial step to "2" is the identity.
+func VerifC13_RegisteredMigration() {
+	verifRegistered = nil
+	self := peer.ID(zz.String("localPeer"))
+	_, err := GetChannelStateMigrations(self)
+	zz.Assert(err == nil, "the migration list builds")
+	zz.Assert(len(verifRegistered) == 2, "two steps are registered")
+	to2, to3 := verifRegistered[0], verifRegistered[1]
+	zz.Assert(to2.newV == "2" && to2.oldV == "" && to3.newV == "3" && to3.oldV == "2", "version keys: (initial)->2, 2->3")
+	zz.Assert(!to2.filtered && !to3.filtered, "the migrations apply to every record")
+	f3, ok := to3.up.(func(*ChannelStateV2) (*internal.ChannelState, error))
+	zz.Assert(ok, "the 2->3 step takes a version-2 record and yields a current record")
+	verifCheckMigration(f3)
+	f2, ok := to2.up.(func(*ChannelStateV2) (*ChannelStateV2, error))
+	zz.Assert(ok, "the initial step yields a version-2 record")
+	in := verifArbitraryV2("v0")
+	cp := verifCopyV2(in)
+	out, err := f2(in)
+	zz.Assert(err == nil && out != nil && verifSameV2(out, &cp), "the initial step is the identity")
+	zz.Reach("registered migrations checked")
 }
